@@ -50,7 +50,9 @@ pub fn run<C: SimCfg>(plan: &Plan, check_distance: usize, frames: u32, expect_re
     if let Some(p) = &perturb {
         game.perturb = Some((p.frame, p.mode.clone()));
     }
-    let nondet_frame = perturb.as_ref().filter(|p| p.mode == PerturbMode::Nondet).map(|p| p.frame);
+    let nondet_frame = perturb.as_ref().filter(|p| matches!(p.mode, PerturbMode::Nondet | PerturbMode::NondetOnce(_))).map(|p| p.frame);
+    // the k-th simulation of the frame is the wrong one (0 = every one): it has to have happened before a report is due
+    let once_k = perturb.as_ref().and_then(|p| if let PerturbMode::NondetOnce(k) = p.mode { Some(k) } else { None }).unwrap_or(0);
     let mut viol: Vec<Violation> = Vec::new();
     let mut probes = Probes::default();
     let np = cfg.num_players;
@@ -95,7 +97,7 @@ pub fn run<C: SimCfg>(plan: &Plan, check_distance: usize, frames: u32, expect_re
                     Some(f) => {
                         let sims = game.sims.get(f as usize).copied().unwrap_or(0);
                         let first = mismatched_frames.iter().copied().min().unwrap_or(-1);
-                        if sims < 2 {
+                        if sims < 2.max(once_k) {
                             viol.push(Violation { class: "c13.early".into(), text: format!("mismatch reported although frame {f} was simulated only {sims} time(s)"), t_us: t, node: 0, frame: current_frame });
                         }
                         if first != f + 1 {
@@ -107,7 +109,7 @@ pub fn run<C: SimCfg>(plan: &Plan, check_distance: usize, frames: u32, expect_re
                                 frame: current_frame,
                             });
                         }
-                        if check_distance >= 2 && current_frame > f + check_distance as i32 + 2 {
+                        if check_distance >= 2 && current_frame > f + check_distance as i32 + 2 + once_k.saturating_sub(1) as i32 {
                             viol.push(Violation {
                                 class: "c13.late".into(),
                                 text: format!("nondeterministic step at frame {f}, check distance {check_distance}: reported only at current_frame {current_frame}"),
@@ -167,7 +169,7 @@ pub fn run<C: SimCfg>(plan: &Plan, check_distance: usize, frames: u32, expect_re
         // a nondeterministic step must have been reported by now
         if let Some(f) = nondet_frame {
             let cf = sess.current_frame();
-            if check_distance >= 2 && cf > f + check_distance as i32 + 3 {
+            if check_distance >= 2 && cf > f + check_distance as i32 + 3 + once_k.saturating_sub(1) as i32 {
                 viol.push(Violation {
                     class: "c13.missed".into(),
                     text: format!("nondeterministic step at frame {f}, check distance {check_distance}: nothing reported up to current_frame {cf}"),
